@@ -105,7 +105,14 @@ def check_call(contract, args: dict, repo=None, quiet=True) -> RTResult:
         v = args[name]
         if isinstance(ty, T.OneOf):
             ty0 = _pick_alternative(ty, v)
-        real[name] = make_object(v)
+        try:
+            real[name] = make_object(v)
+        except Outside:
+            raise
+        except Exception as e:  # noqa: BLE001  (the generated value is not a valid object of its class: not a case of this contract)
+            res.status = "skipped"
+            res.detail = f"argument {name} cannot be constructed: {type(e).__name__}: {str(e)[:120]}"
+            return res
         st.env[name] = lift(v if not isinstance(v, dict) else _DictView(v), ty0)
     pre_env = dict(st.env)
     st.env["__pre__"] = pre_env
@@ -134,6 +141,8 @@ def check_call(contract, args: dict, repo=None, quiet=True) -> RTResult:
                 out = bound(*pa, **kw)
                 call_args["self"] = slf
             else:
+                if "cls" in call_args and owner is not None and isinstance(owner, type):
+                    call_args = {k: v for k, v in call_args.items() if k != "cls"}  # classmethod: bound to its class
                 pa, kw = _split_args(fn, call_args)
                 out = fn(*pa, **kw)
         except Exception as e:  # noqa: BLE001
